@@ -20,7 +20,7 @@ LEVEL_NOTE = ("Trusted: in-process emulation of process death (cross-checked aga
               "starlette/instrumentation. A handler still 'running' 200 virtual seconds after the restart with nothing scheduled counts as 'stays running forever'.")
 DESIGN_REF = "§5 C13"
 RULE = "case = (deterministic program, crash after persisted tick k), all k enumerated; distinct = hash(program seed, k); non-trivial = crash lands before the terminal tick"
-REQUIRED_REACH = ["crash_point", "restart", "resumed_completed", "terminal_prefix_finalised", "crash_after_step_result", "crash_after_add_event", "terminal_prefix_fail", "terminal_prefix_cancel", "terminal_prefix_timeout", "resumed_to_same_failure", "hitl_program"]
+REQUIRED_REACH = ["crash_point", "restart", "resumed_completed", "terminal_prefix_finalised", "crash_after_step_result", "crash_after_add_event", "terminal_prefix_fail", "terminal_prefix_cancel", "terminal_prefix_timeout", "resumed_to_same_failure", "hitl_program", "history_longer_than_100_ticks"]
 ASSUMPTIONS = ["workflows deterministic and idempotent under re-execution by construction (gen_det)"]
 
 
@@ -41,7 +41,8 @@ def gen_case(seed):
         from vf import idle_cases as ic
 
         # (half of them first wait for a quick confirmation nobody sends: a waiter TIMEOUT tick is part of the persisted history)
-        spec, keys = ic.gen_program(rnd, n=1, escalate=rnd.choice([None, 0.5, 1.0]))   # one item: the result does not depend on an order
+        spec, keys = ic.gen_program(rnd, n=1, escalate=rnd.choice([None, 0.5, 1.0]),   # one item: the result does not depend on an order
+                                    warmup=(40 if rnd.random() < 0.4 else None))   # (sometimes with a history longer than 100 persisted ticks)
         spec["sched_seed"] = seed
         spec["family"] = "det"
         spec["hitl_sends"] = [{"at": 8.0 + 0.5 * i, "key": k} for i, k in enumerate(keys)]   # after every wait (incl. the re-run after a quick wait timed out, under store latency) is registered
@@ -242,7 +243,13 @@ def run_one(case, acc, only_k=None):
         acc.sample({"seed": case["seed"], "persisted_ticks": [t["type"] for t in ref["ticks"]], "reference": ref["h"]})
         if case["spec"].get("hitl_sends"):
             acc.hit("hitl_program")
-        for k in range(1, n + 1):
+        ks = list(range(1, n + 1))
+        if n > 60:
+            # a long history: restart points are sampled, most of them beyond the first hundred persisted ticks
+            acc.hit("history_longer_than_100_ticks" if n > 100 else "history_longer_than_60_ticks")
+            r_ = random.Random(case["seed"] ^ 0x10C)
+            ks = sorted(set(r_.sample(range(1, n + 1), 3) + r_.sample(range(min(95, n), n + 1), min(7, n + 1 - min(95, n))) + [n]))
+        for k in ks:
             if only_k is not None and k != only_k:
                 continue
             out, cs = run_crash(case["spec"], os.path.join(d, f"c{k}.db"), k)
